@@ -84,7 +84,7 @@ func runC01(c *Ctx) {
 	for i := 0; i < n+len(bigs); i++ {
 		r := rng.Fork()
 		cid := fmt.Sprintf("c01-%d", i)
-		o := ATGenOpts{AllowFindings: r.Chance(25), NullableVals: r.Chance(50), BigInts: r.Chance(15), ContinueOnError: r.Chance(40), Upserts: r.Chance(35), OrderLimit: r.Chance(30)}
+		o := ATGenOpts{AllowFindings: r.Chance(25), NullableVals: r.Chance(50), BigInts: r.Chance(15), ContinueOnError: r.Chance(40), Upserts: r.Chance(35), OrderLimit: r.Chance(30), AutoInc: r.Chance(15)}
 		cs := genATCase(r, w, cid, o)
 		if i >= n {
 			big := bigs[i-n]
